@@ -963,9 +963,20 @@ class Interp:
     def e_BoolOp(self, node, st):
         is_and = isinstance(node.op, ast.And)
         acc = []
+        tacc = []
         for vn in node.values:
-            v = self.eval(vn, st)
-            t = self.truth(v, st)
+            if tacc:
+                # short circuit: this operand only runs when the earlier ones did not decide; keep its side effects conditional
+                guard = tacc[0] if len(tacc) == 1 else ('bool', 'and' if is_and else 'or', tuple(tacc))
+                s1 = st.copy()
+                s1.pc.append((guard, is_and))
+                v = self.eval(vn, s1)
+                t = self.truth(v, s1)
+                m = self.merge_states(guard, s1, st, len(st.pc)) if is_and else self.merge_states(guard, st, s1, len(st.pc))
+                st.env, st.heap = m.env, m.heap
+            else:
+                v = self.eval(vn, st)
+                t = self.truth(v, st)
             if t is True:
                 if not is_and:
                     return v if not acc else S(('bool', 'or', tuple(acc + [term(v)])), None)
@@ -977,6 +988,7 @@ class Interp:
                 last = v
                 continue
             acc.append(term(v))
+            tacc.append(t)
             last = v
         if not acc:
             return last
